@@ -23,6 +23,12 @@ var guardTargets = []target{
 			"glow.CurrentTimeslot()":  {"now", bv(32)},
 			"report.PowerOutput":      {"p", bv(64)},
 		}},
+	{Name: "Gen.ParseReport", Tags: "test", Pkg: "server", Func: "GCAServer.parseReport",
+		Leaves: map[string]leaf{"len(rawData)": {"n", bv(64)}}},
+	{Name: "Gen.VerifyAuth", Tags: "test", Pkg: "server", Func: "GCAServer.verifyEquipmentAuthorization",
+		Leaves: map[string]leaf{}},
+	{Name: "Gen.RegisterGCA", Tags: "test", Pkg: "server", Func: "GCAServer.registerGCA",
+		Leaves: map[string]leaf{"gcas.gcaPubkeyAvailable": {"avail", "Bool"}}},
 	{Name: "Gen.ListenUDP", Tags: "test", Pkg: "server", Func: "GCAServer.threadedListenUDP",
 		Leaves: map[string]leaf{"readBytes": {"n", bv(64)}}},
 	{Name: "Gen.ValidateMigration", Tags: "test", Pkg: "server", Func: "GCAServer.managedValidateMigration",
